@@ -3,10 +3,14 @@
    afterwards, FAILURE iff not, and complete iff k distinct symbols were submitted.
    LDPC-Staircase streaming decoder (ITModel.v): the completion query is true exactly when all k
    source symbols are available, and availability (hence completion) never reverts along a history.
-   The LDPC of_finish_decoding status (OK iff complete, as repaired) and pointer identity are
-   covered by the correspondence and the C-side oracle only (no ML model yet). *)
+   Pointer identity (StableTables.v; buffers are opaque values of the models, so "the same pointer" is
+   "the same value of type B / Sy"): the table entry written for a fresh submission is the submitted
+   buffer itself, and no later call replaces an entry that is set - in the streaming decoder, in the ML
+   finish and in the Reed-Solomon API layer.
+   The LDPC of_finish_decoding status (OK iff complete afterwards) is a theorem of the ML model: see
+   Properties_C03.v (theorems ldpc_finish_...). *)
 From Coq Require Import Arith List Bool.
-From OFV Require Import ListAux RSApi RSApiProofs ITModel ITProofs.
+From OFV Require Import ListAux RSApi RSApiProofs ITModel ITProofs MLModel StableTables.
 Import ListNotations.
 
 Theorem rs_finish_status_truthful :
@@ -38,6 +42,31 @@ Theorem ldpc_availability_never_reverts :
   forall c, known s1 c = true -> known s2 c = true.
 Proof. exact run_monotone. Qed.
 
+Theorem rs_table_entry_is_the_submitted_buffer :
+  forall (B : Type) (core : nat -> list (option B) -> option (list B)) (cb : bool) (mk : nat -> B -> B) (k n : nat) (h1 h2 : list (nat * B)) esi b,
+  let s := RSApiProofs.run B core cb mk k n h1 in
+  RSApi.fin s = false -> esi < length (RSApi.tab s) -> nth esi (RSApi.tab s) None = None ->
+  nth esi (RSApi.tab (RSApiProofs.run B core cb mk k n (h1 ++ (esi, b) :: h2))) None = Some b.
+Proof. exact rs_run_keeps_submitted. Qed.
+
+Theorem ldpc_table_entry_is_the_submitted_symbol :
+  forall (Sy : Type) (sxor : Sy -> Sy -> Sy) (s0 : Sy) fuel s c v s',
+  ITModel.decode sxor s0 fuel s c v = Some s' -> c < length (ITModel.tab s) -> nth c (ITModel.tab s) None = None ->
+  nth c (ITModel.tab s') None = Some v.
+Proof. exact decode_stores_submitted. Qed.
+
+Theorem ldpc_entries_survive_later_calls_and_finish :
+  forall (Sy : Type) (sxor : Sy -> Sy -> Sy) (s0 : Sy) (H0 : list (list nat)) (R0 N0 : nat) fuel h1 h2 s1 s2 fuel' perm o,
+  ITProofs.run Sy sxor s0 H0 R0 N0 fuel h1 = Some s1 -> ITProofs.run Sy sxor s0 H0 R0 N0 fuel (h1 ++ h2) = Some s2 ->
+  MLModel.ml_finish sxor s0 fuel' perm s2 = Some o ->
+  forall e x, nth e (ITModel.tab s1) None = Some x -> nth e (ITModel.tab (MLModel.o_st o)) None = Some x.
+Proof.
+  intros Sy sxor s0 H0 R0 N0 fuel h1 h2 s1 s2 fuel' perm o R1 R2 Hf e x Hx.
+  exact (ml_finish_tab_stable Sy sxor s0 fuel' perm s2 o Hf e x (run_tab_stable Sy sxor s0 H0 R0 N0 fuel h1 h2 s1 s2 R1 R2 e x Hx)).
+Qed.
+
 Print Assumptions rs_finish_status_truthful.
+Print Assumptions rs_table_entry_is_the_submitted_buffer.
+Print Assumptions ldpc_entries_survive_later_calls_and_finish.
 Print Assumptions ldpc_complete_query_truthful.
 Print Assumptions ldpc_availability_never_reverts.
